@@ -193,12 +193,56 @@ def check_proofs(pid, props, thorough):
 
 
 # ----------------------------------------------------------------------------- builds
+# harness build variants: name -> (binary path, extra run environment)
+VARIANTS = {"plain": (GHARNESS, {})}
+HOST = "x86_64-unknown-linux-gnu"
+
+
+def build_variant(name):
+    """Build the harness (and with it graaf from /repo's working tree) in a sanitizer variant."""
+    if name in VARIANTS:
+        return None
+    if name in ("asan", "asan-release"):
+        tdir = os.path.join(HARNESS, "target-" + name)
+        env = dict(ENV, CARGO_TARGET_DIR=tdir, RUSTFLAGS="-Zsanitizer=address")
+        cmd = ["cargo", "+nightly", "build", "--offline", "--quiet", "--target", HOST]
+        prof = "debug"
+        if name == "asan-release":
+            cmd.append("--release")
+            prof = "release"
+        rc, out, err = sh(cmd, cwd=HARNESS, timeout=3000, env=env)
+        if rc != 0:
+            return f"cargo build ({name}) of the harness against /repo failed:\n" + (out + err)[-3000:]
+        VARIANTS[name] = (os.path.join(tdir, HOST, prof, "gharness"),
+                          {"ASAN_OPTIONS": "detect_leaks=0:abort_on_error=1:allocator_may_return_null=1"})
+        return None
+    return f"unknown harness variant {name}"
+
+
+def load_plugin(pid):
+    """Optional per-property hooks: tools/plugins/<pid>.py with any of
+    pre_checks(ctx) -> [failure strings]; extra_records(ctx, inputs) -> [record dicts]."""
+    path = os.path.join(ROOT, "tools", "plugins", f"{pid}.py")
+    if not os.path.exists(path):
+        return None
+    import importlib.util
+    spec = importlib.util.spec_from_file_location(f"plugin_{pid}", path)
+    mod = importlib.util.module_from_spec(spec)
+    spec.loader.exec_module(mod)
+    return mod
+
+
 def build_tie(props):
     env = dict(ENV, CARGO_TARGET_DIR=TARGET)
     cmd = ["cargo", "build", "--offline", "--quiet"]
     rc, out, err = sh(cmd, cwd=HARNESS, timeout=3000, env=env)
     if rc != 0:
         return "cargo build of the harness against /repo failed:\n" + (out + err)[-3000:]
+    for v in set(props.get("variants_quick", []) + props.get("variants_thorough", [])) - {"plain"}:
+        if v in props.get("variants_" + props.get("_tier", "quick"), []):
+            e = build_variant(v)
+            if e:
+                return e
     rc, out, err = sh(["lake", "build", "gdriver"], cwd=LEAN, timeout=3000)
     if rc != 0:
         return "lake build gdriver failed:\n" + (out + err)[-3000:]
@@ -220,7 +264,7 @@ def corpus_inputs(pid):
     return [l.strip() for l in open(p) if l.strip() and not l.startswith("#")]
 
 
-def run_eval(inputs, mask=None, stall_s=60):
+def run_eval(inputs, mask=None, stall_s=60, variant="plain"):
     """Run the real code on `inputs`. Returns (t, outputs) with one output line per input.
     A crash / stall of the harness is attributed to the first unanswered input, which gets
     the synthetic output `fault <what>`; the harness is restarted on the rest."""
@@ -233,8 +277,9 @@ def run_eval(inputs, mask=None, stall_s=60):
         prefix = ["taskset", "-c", f"0-{mask - 1}"]
     while pos < len(inputs):
         chunk = inputs[pos:]
-        proc = subprocess.Popen(prefix + [GHARNESS, "eval"], stdin=subprocess.PIPE, stdout=subprocess.PIPE,
-                                stderr=subprocess.DEVNULL, env=ENV)
+        vbin, venv = VARIANTS[variant]
+        proc = subprocess.Popen(prefix + [vbin, "eval"], stdin=subprocess.PIPE, stdout=subprocess.PIPE,
+                                stderr=subprocess.DEVNULL, env=dict(ENV, **venv))
         data = ("\n".join(chunk) + "\n").encode()
         # feed stdin from a thread-less writer: write in a forked helper via os.fork is overkill;
         # use a non-blocking approach: small inputs fit a pipe, large ones need a writer thread.
@@ -309,9 +354,9 @@ def parse_verdict(v):
     return status, nt == "1", ([] if tags in ("-", "") else tags.split(",")), detail
 
 
-def evaluate(inputs, mask=None):
+def evaluate(inputs, mask=None, variant="plain"):
     """inputs -> list of dicts {input, case, status, nt, tags, detail, t}"""
-    t, outs = run_eval(inputs, mask)
+    t, outs = run_eval(inputs, mask, variant=variant)
     t = t or 1
     res = []
     normal, idx = [], []
@@ -394,6 +439,7 @@ def shrink_candidates(vs):
 
 
 def shrink(rec, mask, budget=40):
+    variant = rec.get("variant", "plain")
     """Greedy shrinking that keeps the verdict status. Bounded number of harness round trips."""
     want = rec["status"]
     best = rec
@@ -413,7 +459,9 @@ def shrink(rec, mask, budget=40):
         if not cands:
             break
         try:
-            rs = evaluate(cands, mask)
+            rs = evaluate(cands, mask, variant)
+            for r_ in rs:
+                r_["variant"] = variant
         except Exception:
             break
         hit = next((r for r in rs if r["status"] == want and len(r["input"]) < len(best["input"])), None)
@@ -449,6 +497,10 @@ def main():
     thorough = tier == "thorough"
     t0 = time.time()
     props = load_props(pid)
+    props["_tier"] = tier
+    plugin = load_plugin(pid)
+    ctx = {"pid": pid, "tier": tier, "seed": seed, "root": ROOT, "lean": LEAN, "harness": HARNESS, "repo": ALT_REPO or "/repo",
+           "props": props, "evaluate": evaluate, "variants": VARIANTS, "build_variant": build_variant, "sh": sh, "log": log}
     kf = known_findings(pid)
     masks = props.get("masks_thorough" if thorough else "masks_quick") or [None]
     repeat = props.get("repeat_thorough" if thorough else "repeat_quick", 1)
@@ -461,7 +513,14 @@ def main():
             print(err)
             sys.exit(2)
         lines = payload.get("inputs") or [payload["input"]]
-        rs = evaluate(lines, payload.get("mask"))
+        rv = payload.get("variant", "plain")
+        if rv != "plain":
+            props["variants_" + tier] = [rv]
+            e = build_variant(rv)
+            if e:
+                print(e)
+                sys.exit(2)
+        rs = evaluate(lines, payload.get("mask"), rv)
         bad = [r for r in rs if r["status"] != "OK"]
         for r in rs:
             print(f"{r['status']} {r['detail']}\n   {r['case']}")
@@ -491,13 +550,23 @@ def main():
     if not inputs:
         raise SystemExit(f"{pid}: no inputs generated")
     all_recs = []
-    for mask in masks:
-        for _rep in range(repeat):
-            rs = evaluate(inputs, mask)
-            for r in rs:
-                r["mask"] = mask
-            all_recs.extend(rs)
-    log(f"{pid}: {len(all_recs)} evaluations over masks {masks}")
+    variants = props.get("variants_" + tier) or ["plain"]
+    for variant in variants:
+        for mask in masks:
+            for _rep in range(repeat):
+                rs = evaluate(inputs, mask, variant)
+                for r in rs:
+                    r["mask"] = mask
+                    r["variant"] = variant
+                    if variant != "plain":
+                        r["tags"] = r["tags"] + ["variant=" + variant]
+                all_recs.extend(rs)
+    if plugin is not None and hasattr(plugin, "pre_checks"):
+        # source-level ties regenerated from /repo on every run (e.g. the C13 site inventory)
+        proof_failures = proof_failures + [f"pre-check: {x}" for x in plugin.pre_checks(ctx)]
+    if plugin is not None and hasattr(plugin, "extra_records"):
+        all_recs.extend(plugin.extra_records(ctx, inputs))
+    log(f"{pid}: {len(all_recs)} evaluations over masks {masks}, variants {variants}")
 
     # ---- 4. classification
     badlines = [r for r in all_recs if r["status"] == "BADLINE"]
@@ -521,7 +590,7 @@ def main():
     if propfails:
         r = shrink(propfails[0], propfails[0].get("mask"))
         path = write_replay(pid, 1, {"property": pid, "kind": "propfail", "input": r["input"], "case": r["case"],
-                                     "verdict": r["status"] + " " + r["detail"], "mask": propfails[0].get("mask"),
+                                     "verdict": r["status"] + " " + r["detail"], "mask": propfails[0].get("mask"), "variant": propfails[0].get("variant", "plain"),
                                      "unshrunk_input": propfails[0]["input"], "count": len(propfails)})
         violations.append((path, ""))
     elif mismatches or proof_failures:
